@@ -125,6 +125,10 @@ func (u *Universe) PushMediaType(op Op) string {
 		}
 		return MTOther
 	}
+	if op.Mode == 1 && (u.Manifests[op.M].Kind == "image" || u.Manifests[op.M].Kind == "index") {
+		// the bytes of a structured manifest pushed as an opaque document
+		return MTOpaque
+	}
 	return mt
 }
 
